@@ -52,7 +52,7 @@ func checkTimeval(t failer, n int64) {
 var recTv = ev.New("c18/timeval", "rapid: int64 nanosecond counts (corners, +-k*1e9+-{0,1}, powers of two, uniform); oracle: 0 <= sub < 1e9 and sec*1e9+sub == n in big-integer arithmetic. Non-trivial: negative n with non-zero remainder; distinct by n")
 
 func TestPropTimeval(t *testing.T) {
-	vt.Check(t, 200000, 2000000, func(t *rapid.T) {
+	vt.Check(t, 400000, 6000000, func(t *rapid.T) {
 		n := rapid.OneOf(gen.Int64Mix(),
 			rapid.Map(rapid.Int64Range(-9223372036, 9223372036), func(k int64) int64 { return k * 1e9 }),
 			rapid.Custom(func(t *rapid.T) int64 {
